@@ -982,10 +982,29 @@ Definition bb_items_ok (rsv : gset string) (bbs : list bbdef) (m : vmodule) : Pr
 Definition outs_driven2 (bbs : list bbdef) (m : vmodule) : Prop :=
   ∀ s, s ∈ decl_outputs m → s ∈ decl_inputs m ∨ s ∈ (drivers m).*1 ∨ s ∈ netsL (bb_insts bbs m).
 
-Theorem read_succeeds_bb rsv bbs m : ports_match m = true → in_subset bbs m = true → names_ok m → nodots m → outs_driven2 bbs m →
+Lemma defs_split bbs m s : s ∈ module_defs bbs m → s ∈ (drivers m).*1 ∨ s ∈ netsL (bb_insts bbs m).
+Proof.
+  unfold module_defs, drivers, bb_insts. intros (it & Hs & Hit)%elem_of_list_bind. destruct it as [ns|ns|ns|mn insts|l]; simpl in Hs; try (by apply elem_of_nil in Hs).
+  - apply elem_of_list_bind in Hs as (ic & Hs & Hic). unfold inst_defs in Hs. destruct (prim_of_name mn) as [t|] eqn:Ep.
+    + left. apply elem_of_list_fmap. destruct ic as [nm [[|o ins]|ps]]; simpl in Hs; try (by apply elem_of_nil in Hs).
+      destruct (as_id o) as [n|] eqn:Eo; [|by apply elem_of_nil in Hs]. apply elem_of_list_singleton in Hs as ->.
+      exists (n, DPrim t ins). split; [done|]. apply elem_of_list_bind. exists (IInst mn insts). split; [|done]. simpl.
+      apply elem_of_list_bind. exists (nm, Positional (o :: ins)). split; [|done]. unfold inst_drivers. rewrite Ep. simpl. rewrite Eo. by left.
+    + right. destruct (find_def bbs mn) as [d|] eqn:Ed; [|by apply elem_of_nil in Hs]. destruct ic as [nm [pp|ps]]; simpl in Hs; [by apply elem_of_nil in Hs|].
+      unfold netsL. apply elem_of_union_list. exists (xnets (nm, d, ps)). split.
+      * apply elem_of_list_fmap. exists (nm, d, ps). split; [done|]. apply elem_of_list_bind. exists (IInst mn insts). split; [|done]. rewrite Ep, Ed.
+        apply elem_of_list_bind. exists (nm, Named ps). split; [|done]. simpl. by left.
+      * unfold xnets. simpl. apply elem_of_list_to_set. unfold bb_defs. simpl. exact Hs.
+  - left. apply elem_of_list_fmap in Hs as ([lv e] & -> & Hin). apply elem_of_list_fmap. exists (lv, DAssign e). split; [done|].
+    apply elem_of_list_bind. exists (IAssign l). split; [|done]. simpl. apply elem_of_list_fmap. exists (lv, e). done.
+Qed.
+Lemma in_subset_outs_driven2 bbs m : in_subset bbs m = true → outs_driven2 bbs m.
+Proof. intros Hs s Ho. destruct (in_subset_outs_driven bbs m Hs s Ho) as [?|Hd]; [by left|right]. by apply defs_split. Qed.
+
+Theorem read_succeeds_bb rsv bbs m : ports_match m = true → in_subset bbs m = true → names_ok m → nodots m →
   bb_items_ok rsv bbs m → pins_apart (bb_insts bbs m) → (list_to_set (module_ids m) : gset string) ⊆ rsv → ∃ C, read rsv bbs m = Ok C.
 Proof.
-  intros Hpm Hs Hnm Hnd' Hod Hbk Hap Hids. destruct (in_subset_den2 rsv bbs m Hs Hids) as (HNN & Hok & Hnd). pose proof (in_subset_pin rsv bbs m Hs Hids) as Hpk.
+  intros Hpm Hs Hnm Hnd' Hbk Hap Hids. pose proof (in_subset_outs_driven2 bbs m Hs) as Hod. destruct (in_subset_den2 rsv bbs m Hs Hids) as (HNN & Hok & Hnd). pose proof (in_subset_pin rsv bbs m Hs Hids) as Hpk.
   assert (Hnames : NoDup ((bb_insts bbs m).*1.*1)).
   { unfold in_subset in Hs. rewrite !andb_true_iff in Hs. destruct Hs as ((((((_ & Hn) & _) & _) & _) & _) & _). by apply bool_decide_eq_true in Hn. }
   pose proof (init_nodot rsv bbs) as Hties. unfold bb_items_ok in Hbk. unfold outs_driven2 in Hod. rewrite (bb_insts_xit rsv bbs m) in Hap, Hnames, Hod.
@@ -1032,7 +1051,7 @@ Proof.
 Qed.
 
 (* read_denotes in full under the identifier guards: the read succeeds and every conjunct of the conclusion holds *)
-Theorem read_denotes_full_guarded rsv bbs m : ports_match m = true → in_subset bbs m = true → names_ok m → nodots m → outs_driven2 bbs m →
+Theorem read_denotes_full_guarded rsv bbs m : ports_match m = true → in_subset bbs m = true → names_ok m → nodots m →
   bb_items_ok rsv bbs m → pins_apart (bb_insts bbs m) → (list_to_set (module_ids m) : gset string) ⊆ rsv →
   ∃ C, read rsv bbs m = Ok C ∧ c_name C = m_name m ∧
     c_bbs C = list_to_map ((λ x : xinst, (x.1.1, x.1.2)) <$> bb_insts bbs m) ∧
@@ -1040,6 +1059,6 @@ Theorem read_denotes_full_guarded rsv bbs m : ports_match m = true → in_subset
     (∀ w, consistent (c_g C) w → ∃ x, sat_module m w x) ∧
     (∀ v x, sat_module m v x → ∃ w, consistent (c_g C) w ∧ ∀ n, n ∈ used_nets m → w n = v n).
 Proof.
-  intros Hpm Hs Hnm Hnd Hod Hbk Hap Hids. destruct (read_succeeds_bb rsv bbs m Hpm Hs Hnm Hnd Hod Hbk Hap Hids) as [C HC]. exists C. split; [done|].
+  intros Hpm Hs Hnm Hnd Hbk Hap Hids. destruct (read_succeeds_bb rsv bbs m Hpm Hs Hnm Hnd Hbk Hap Hids) as [C HC]. exists C. split; [done|].
   by apply (read_denotes_of_success rsv bbs m C).
 Qed.
